@@ -1099,7 +1099,11 @@ func (fr *Frame) val(v ssa.Value) Value {
 	case *ssa.Global:
 		// address of a package-level variable
 		t := x.Type().(*types.Pointer).Elem()
-		return PtrV{Kind: KGlobal, Elem: t, RootT: t, Null: False(), GKey: "G:" + x.Pkg.Pkg.Name() + "." + x.Name()}
+		pv := PtrV{Kind: KGlobal, Elem: t, RootT: t, Null: False(), GKey: "G:" + x.Pkg.Pkg.Name() + "." + x.Name()}
+		if _, isIface := t.Underlying().(*types.Interface); isIface && fr.p.eng.globalNonNil(x.Pkg, x.Name()) {
+			pv.NonNilGlobal = true
+		}
+		return pv
 	case *ssa.Builtin:
 		return FuncV{}
 	}
@@ -1364,6 +1368,10 @@ func (fr *Frame) load(in ssa.Instruction, st *State, addr Value, t types.Type) V
 	case KGlobal:
 		ps, ft := pathString(ptr.RootT, ptr.Path)
 		v := build(ft, func(l leafSpec) *Term { return p.heapCell(st, ptr.GKey+ps+l.Path, l.Sort) })
+		if iv, ok := v.(IfaceV); ok && ptr.NonNilGlobal {
+			p.assume(True(), Neq(iv.Ref, BVInt(0, 64)))
+			p.note("package variable " + ptr.GKey[2:] + " is initialised once with a non-nil error and never reassigned")
+		}
 		return arrayProj(v, ptr.AIdx)
 	case KField:
 		ps, ft := pathString(ptr.RootT, ptr.Path)
